@@ -124,12 +124,15 @@ def parseCompsTok (s : String) : Option Comps :=
   if s = "n" then some none else if s = "e" then some (some [])
   else ((s.splitOn "+").mapM parseCps).map some
 
-def parseWrappers (s : String) : Option (List (Str × Comps)) :=
-  if s = "-" then some [] else
-  (s.splitOn "/").mapM fun w =>
+/-- wrappers `name=comps` or `name=comps=inner` (the body only calls `self.<inner>(…)`) -/
+def parseWrappers (s : String) : Option (List (Str × Comps) × List (Str × Str)) :=
+  if s = "-" then some ([], []) else do
+  let ws ← (s.splitOn "/").mapM fun w =>
     match w.splitOn "=" with
-    | [m, c] => do some (← parseCps m, ← parseCompsTok c)
+    | [m, c] => do some ((← parseCps m, ← parseCompsTok c), none)
+    | [m, c, i] => do some ((← parseCps m, ← parseCompsTok c), some (← parseCps m, ← parseCps i))
     | _ => none
+  some (ws.map (·.1), ws.filterMap (·.2))
 
 def parseTarget (st : St) (s : String) : Option Target :=
   match s.splitOn "=" with
@@ -265,6 +268,7 @@ def handle (st : St) (line : String) : St × String :=
   match splitWs line with
   | ["reset"] => (St.init, "ok")
   | ["lastid"] => (st, st.lastId)
+  | ["debuglog"] => (st, "ok")     -- the logger of ak.conn_http at DEBUG: nothing that is sent may change
   | ["list", name, as] =>
     match name.toNat?, parseAdapters as with
     | some nm, some l => exec st (.newList l) fun s n => { s with lists := (nm, n) :: s.lists }
@@ -295,7 +299,7 @@ def handle (st : St) (line : String) : St × String :=
     match name.toNat?, (if pmap = "~" then some none else (parsePairs pmap).map some), parseWrappers wrappers with
     | some nm, some pm, some ws =>
       match parseNames ((nm, self) :: st.classes) mro, parseNames st.classes bases with
-      | some m, some b => exec st (.newClass b m pm ws) fun s n => { s with classes := (nm, n) :: s.classes }
+      | some m, some b => exec st (.newClass b m pm ws.1 ws.2) fun s n => { s with classes := (nm, n) :: s.classes }
       | _, _ => bad
     | _, _, _ => bad
   | ["caller", name, target, cls] =>
